@@ -121,7 +121,7 @@ PROPS = {
                 "circuits: in-memory vs forced-streaming bytes identical for 6 formats x shot counts {1,64,192,320}; distinct = distinct circuit texts",
         "trusted_base": ["the PRNG and the statistical spanning argument (false-alarm probability < 1e-12 per case)"],
         "partial": ["fsim_shot_valid (induction over the instruction list) is assembled only up to the three step theorems frame_noise/forced/free",
-                    "fsim_free_surjective (uniformity) is checked only through the spanning test; unbiasedness statistics belong to C05"],
+                    "uniformity over the affine space of records is tested statistically on single results and random parities (fsim uniform), not proved for the sampler"],
         "assumptions": ["disjoint / heralded / correlated channels are over-approximated by the span of their Paulis (sound for the validity check)"],
     },
     "C04": {
@@ -337,7 +337,8 @@ PROPS = {
 
 # ---- coverage added by the command-line area (`cli`) and the streaming-record area: appended to the per-property rules
 _CLI_RULES = {
-    "C02": "area cli: `stim sample` in-process (shots {1,2,5,64,70,256}, 6 formats, --skip_loop_folding, --skip_reference_sample, --shots/--sample, "
+    "C02": "unbiasedness (every 16th fsim case): 4096 shots of the bulk sampler and 1024 runs of the single-shot simulator on a noiseless circuit; every result bit and 9 random parities must be constant (equal to the reference sample's) when the Lean frame model says so and otherwise 1 in half of the shots within the Bernstein bound (1e-12); "
+           "area cli: `stim sample` in-process (shots {1,2,5,64,70,256}, 6 formats, --skip_loop_folding, --skip_reference_sample, --shots/--sample, "
            "`--k v` and `--k=v`) with every decoded record sent to the record oracle and the bytes re-encoded by the Lean format model; "
            "area record: random record/flush/lookback sequences on stim::MeasureRecord against Model/Record (equality); area recbatch: the same for the frame simulator's "
            "MeasureRecordBatch + MeasureRecordBatchWriter (bursts of up to 520 rows so that 256-row block writes happen, reference sample inversion, trimming, 3 word widths) against Model/RecordBatch",
